@@ -214,7 +214,7 @@ class TranscriptInterval(AbstractFeatureInterval):
     def chunk_relative_cds_size(self) -> int:
         """Chunk relative CDS size (can shrink if the Location is a slice of the full transcript)"""
         if self.is_coding:
-            return len(self.cds)
+            return self.cds.chunk_relative_size
         return 0
 
     @property
